@@ -243,7 +243,10 @@ def kind_of(x):
 
 
 REPLACEMENTS = [('map', {'k': 1}), ('empty-map', {}), ('list', [1, 'x']), ('empty-list', []), ('text', 'zzz'), ('number', 12345),
-                ('float', 1.5), ('bool', True), ('null', None), ('nested-list', [[1]]), ('map-of-map', {'k': {'j': 1}})]
+                ('float', 1.5), ('bool', True), ('null', None), ('nested-list', [[1]]), ('map-of-map', {'k': {'j': 1}}),
+                # numbers that compare equal to booleans, booleans for numbers, digits as text, integral floats, wide integers
+                ('zero', 0), ('one', 1), ('float-zero', 0.0), ('float-one', 1.0), ('minus-one', -1), ('false', False),
+                ('text-digit', '1'), ('text-true', 'true'), ('wide-int', 2 ** 70), ('float-integral', 7.0)]
 
 
 def dict_mutations(doc, class_names):
